@@ -670,7 +670,11 @@ func c20IntIndexValue(typ string) interface{} {
 	case "map[string]string":
 		return map[string]string{"1": "one", "0": "zero", "65": "sixty-five", "10": "ten"}
 	case "map[string]int":
-		return map[string]int{"1": 101, "0": 100, "65": 165, "10": 110}
+		return map[string]int{"1": 101, "0": 100, "65": 165, "10": 110, "z": 0}
+	case "map[string]bool":
+		return map[string]bool{"1": true, "0": false, "65": true, "10": false, "z": false}
+	case "map[string]float64":
+		return map[string]float64{"1": 1.5, "0": 0, "65": 65, "10": 0, "z": 0}
 	case "named":
 		return c20NamedStrMap{"1": "one", "0": "zero", "65": "sixty-five", "10": "ten"}
 	case "map[string]iface-typed":
@@ -700,11 +704,11 @@ func checkC20IntIndex(c C20IntIndexCase) error {
 }
 
 func TestC20IntIndex(t *testing.T) {
-	r := NewRec(t, "C20", "exhaustive: 4 typed Go maps with string keys that spell numbers (map[string]string, map[string]int, a named map type, a map of an interface type) x 9 subscripts that are numbers (literals, variables, sums, a float); oracle: the answer for a map[string]interface{} of the same content; all cases non-trivial")
+	r := NewRec(t, "C20", "exhaustive: 6 typed Go maps with string keys that spell numbers (map[string]string, map[string]int, map[string]bool, map[string]float64, a named map type, a map of an interface type) x 16 subscripts (numbers as literals, variables, sums and a float; string keys whose entry holds 0 / false / 0.0, written as literal and computed; a key that is absent); oracle: the answer for a map[string]interface{} of the same content; all cases non-trivial")
 	defer r.Flush()
 	r.SetExhaustive()
-	for _, typ := range []string{"map[string]string", "map[string]int", "named", "map[string]iface-typed"} {
-		for _, ex := range []string{"x[1]", "x[0]", "x[65]", "x[10]", "x[i]", "x[j]", "x[i + 64]", "x[f]", "x[2]"} {
+	for _, typ := range []string{"map[string]string", "map[string]int", "named", "map[string]iface-typed", "map[string]bool", "map[string]float64"} {
+		for _, ex := range []string{"x[1]", "x[0]", "x[65]", "x[10]", "x[i]", "x[j]", "x[i + 64]", "x[f]", "x[2]", "x['z']", "x['0']", "x['1' ~ '0']", "x['z'] == 0 ? 'zero' : 'other'", "x['z'] is null ? 'null' : 'nn'", "x.z", "x['nope']"} {
 			c := C20IntIndexCase{Typ: typ, Expr: ex}
 			r.Case(typ+ex, true, c)
 			if err := checkC20IntIndex(c); err != nil {
@@ -715,3 +719,93 @@ func TestC20IntIndex(t *testing.T) {
 }
 
 func init() { reg("C20.intindex", checkC20IntIndex) }
+
+// ---- one struct type reached by value and by pointer, inside and outside a sandbox, in either order ------------
+
+type zBW1 struct{ Name, Zone string }
+
+func (z zBW1) VName() string  { return "name:" + z.Name }
+func (z *zBW1) PZone() string { return "zone:" + z.Zone }
+func (z zBW1) ZLast() string  { return "last:" + z.Name }
+
+type zBW2 struct{ Name, Zone string }
+
+func (z zBW2) VName() string  { return "name:" + z.Name }
+func (z *zBW2) PZone() string { return "zone:" + z.Zone }
+func (z zBW2) ZLast() string  { return "last:" + z.Name }
+
+type zBW3 struct{ Name string }
+
+func (z zBW3) Label() string { return "L:" + z.Name }
+
+type zBW4 struct{ Name string }
+
+func (z zBW4) Label() string { return "L:" + z.Name }
+
+type C20BothWaysCase struct {
+	Which int `json:"which"`
+}
+
+// checkC20BothWays: each scenario uses a struct type of its own, so that the order of the first
+// lookups of that type in this process is the one written here.
+func checkC20BothWays(c C20BothWaysCase) error {
+	const probe = "{{ x.VName }}|{{ x.PZone }}|{{ x.ZLast }}|{{ x.Name }}|{{ x.Zone }}"
+	want := func(n, z string) string { return "name:" + n + "|zone:" + z + "|last:" + n + "|" + n + "|" + z }
+	type step struct {
+		x    interface{}
+		want string
+	}
+	var steps []step
+	switch c.Which % 4 {
+	case 0: // through the pointer first, then by value, then the pointer again
+		steps = []step{{&zBW1{"bob", "eu"}, want("bob", "eu")}, {zBW1{"ann", "us"}, want("ann", "us")}, {&zBW1{"cy", "as"}, want("cy", "as")}}
+	case 1: // by value first
+		steps = []step{{zBW2{"ann", "us"}, want("ann", "us")}, {&zBW2{"bob", "eu"}, want("bob", "eu")}, {zBW2{"cy", "as"}, want("cy", "as")}}
+	case 2, 3:
+		// a method first reached inside a sandboxed include, then by an ordinary engine (and the other
+		// way round): the same value every time
+		tm := map[string]string{"main": "[{% include 'child' sandboxed %}]", "child": "{{ item.Label }}|{{ item.Name }}", "plain": "[{{ item.Label }}|{{ item.Name }}]"}
+		mk := func(name string) interface{} {
+			if c.Which%4 == 2 {
+				return zBW3{name}
+			}
+			return &zBW4{name}
+		}
+		order := []string{"main", "plain", "main", "plain"}
+		if c.Which%4 == 3 {
+			order = []string{"plain", "main", "plain", "main"}
+		}
+		for i, name := range order {
+			e := newEngine(tm)
+			pol := twig.NewDefaultSecurityPolicy()
+			e.EnableSandbox(pol)
+			r := render(e, name, map[string]interface{}{"item": mk(fmt.Sprint("n", i))})
+			if w := fmt.Sprintf("[L:n%d|n%d]", i, i); r.Failed() || r.Out != w {
+				return fmt.Errorf("step %d: template %q (%s) with item = %T renders %v, want %s", i, name, map[string]string{"main": "sandboxed include", "plain": "no sandbox"}[name], mk("x"), r, q(w))
+			}
+		}
+		return nil
+	}
+	for i, s := range steps {
+		r := render1(probe, map[string]interface{}{"x": s.x})
+		if r.Failed() || r.Out != s.want {
+			return fmt.Errorf("step %d: %s with x = %T renders %v, want %s", i, probe, s.x, r, q(s.want))
+		}
+	}
+	return nil
+}
+
+func TestC20BothWays(t *testing.T) {
+	r := NewRec(t, "C20", "exhaustive: 4 histories, each on a struct type of its own: value and pointer-receiver methods and fields looked up through *T first and T next, through T first and *T next, a method looked up inside a sandboxed include first and by an unsandboxed template next, and the reverse; oracle: the member's value at every step; all cases non-trivial")
+	defer r.Flush()
+	r.SetExhaustive()
+	for i := 0; i < 4; i++ {
+		c := C20BothWaysCase{Which: i}
+		r.Case(fmt.Sprint(i), true, i)
+		if err := checkC20BothWays(c); err != nil {
+			r.FailEnum(t, "C20.bothways", c, err)
+		}
+	}
+}
+
+func init() { reg("C20.bothways", checkC20BothWays) }
